@@ -98,6 +98,11 @@ static void op_frame(const V &a, V &r) {
     std::mt19937 rg((unsigned) a[SPECN]);
     LweSample *x = new_LweSample(P->in_out_params), *res = new_LweSample(P->in_out_params), *u = new_LweSample(&tp->extracted_lweparams);
     for (int i = 0; i < n; i++) x->a[i] = (int32_t) rg(); x->b = (int32_t) rg();
+    // exact rounding ties of the modulus switch to 2N (low 21 bits = 2^20 for N = 1024) on some coefficients and on the body:
+    // whatever the tie rule, resolving it must not consume randomness nor touch anything else
+    { const uint32_t lowmask = (uint32_t) ((1ull << 32) / (2 * (uint64_t) N)) - 1, half = (lowmask + 1) / 2;
+      x->a[0] = (int32_t) (((uint32_t) x->a[0] & ~lowmask) | half); x->a[n / 2] = (int32_t) (((uint32_t) x->a[n / 2] & ~lowmask) | half);
+      x->b = (int32_t) (((uint32_t) x->b & ~lowmask) | half); }
     for (int i = 0; i < k * N; i++) u->a[i] = (int32_t) rg(); u->b = (int32_t) rg();
     TLweSample *acc = new_TLweSample(tp), *acc0 = new_TLweSample(tp);
     for (int q = 0; q <= k; q++) for (int j = 0; j < N; j++) acc->a[q].coefsT[j] = (int32_t) rg();
